@@ -470,14 +470,21 @@ Qed.
 Lemma finals_sound m b c0 p c' :
   In (p, c') (finals m b c0) -> valid_sched m b None c0 p /\ c' = run m p c0.
 Proof.
-  intro H. apply explore_sound in H. destruct H as [sched [Hp [Hv Hr]]].
-  change (p = sched) in Hp. subst. split; [assumption|reflexivity].
+  unfold finals. intro H.
+  destruct (explore_sound m 200 b None c0 [] p c' H) as [sched [Hp [Hv Hr]]].
+  assert (E : rev (@nil N) ++ sched = sched) by reflexivity.
+  rewrite E in Hp. rewrite Hp. split; [exact Hv|exact Hr].
 Qed.
 
 Lemma finals_complete m b c0 sched :
   valid_sched m b None c0 sched -> (length sched <= 200)%nat ->
   In (sched, run m sched c0) (finals m b c0).
-Proof. intros Hv Hl. apply (explore_complete m sched 200 b None c0 [] Hv Hl). Qed.
+Proof.
+  intros Hv Hl. unfold finals.
+  pose proof (explore_complete m sched 200 b None c0 [] Hv Hl) as X.
+  assert (E : rev (@nil N) ++ sched = sched) by reflexivity.
+  rewrite E in X. exact X.
+Qed.
 
 Lemma is_final_valid m b c0 sched :
   is_final m b c0 sched = true -> valid_sched m b None c0 sched.
@@ -570,4 +577,86 @@ Proof.
     assert (Hid' : e_id (set_conf cur true) = e_id t) by (cbn; exact Hid).
     rewrite <- Hid'. apply find_upsert_same. exists cur. rewrite Hid'. exact Ef.
   - left. apply find_upsert_other. cbn. congruence.
+Qed.
+
+Lemma orderedb_spec rank T : orderedb rank T = true -> ordered rank T.
+Proof.
+  induction T as [|af T IH]; cbn [orderedb ordered]; [trivial|].
+  intro H. apply andb_prop in H as [H1 H2]. split; [|apply IH; exact H2].
+  rewrite forallb_forall in H1. apply Forall_forall. intros bf Hin Hlt.
+  specialize (H1 bf Hin). apply N.ltb_lt in Hlt. rewrite Hlt in H1. exact H1.
+Qed.
+
+(** * Part 7: the concrete statements (computed inside Coq on the scenario instances) *)
+
+(** before the fix: a schedule (no recorded shape) after which the completed cancel_tx is
+    overwritten, and whose final observation no serial execution reaches *)
+Theorem stale_writeback_refuted :
+  exists sched,
+    valid_sched Stale 1 None c_recv_cancel sched
+    /\ known (trace Stale sched c_recv_cancel) = false
+    /\ clobbered (run Stale sched c_recv_cancel) = true
+    /\ forall sched', valid_sched Stale 0 None c_recv_cancel sched' -> (length sched' <= 200)%nat ->
+                      obs_eqb (obs (run Stale sched c_recv_cancel))
+                              (obs (run Stale sched' c_recv_cancel)) = false.
+Proof.
+  exists w_stale.
+  split; [apply is_final_valid; vm_compute; reflexivity|].
+  split; [vm_compute; reflexivity|].
+  split; [vm_compute; reflexivity|].
+  apply not_serializable_spec. vm_compute. reflexivity.
+Qed.
+
+(** the same schedule after the fix is serializable (and nothing is clobbered) *)
+Theorem fresh_same_schedule_ok :
+  valid_sched Fresh 1 None c_recv_cancel w_stale
+  /\ clobbered (run Fresh w_stale c_recv_cancel) = false
+  /\ exists sched', valid_sched Fresh 0 None c_recv_cancel sched'
+                    /\ obs_eqb (obs (run Fresh w_stale c_recv_cancel))
+                               (obs (run Fresh sched' c_recv_cancel)) = true.
+Proof.
+  split; [apply is_final_valid; vm_compute; reflexivity|].
+  split; [vm_compute; reflexivity|].
+  exists [1; 1; 1; 1; 1; 1; 1; 1; 1; 1; 1; 2; 0; 0; 0; 0; 0; 0; 0; 0; 0; 0; 0].
+  split; [apply is_final_valid; vm_compute; reflexivity|vm_compute; reflexivity].
+Qed.
+
+Lemma bounded_ok :
+  forallb (fun cb => serializable_or_known Fresh (snd cb) (fst cb)) bounded_scenarios = true.
+Proof. vm_compute. reflexivity. Qed.
+
+Theorem bounded_unrestricted :
+  forall c0 b, In (c0, b) bounded_scenarios ->
+  forall sched, valid_sched Fresh b None c0 sched -> (length sched <= 200)%nat ->
+    known (trace Fresh sched c0) = true
+    \/ exists sched', valid_sched Fresh 0 None c0 sched'
+                      /\ obs_eqb (obs (run Fresh sched c0)) (obs (run Fresh sched' c0)) = true.
+Proof.
+  intros c0 b Hin. apply serializable_or_known_spec.
+  pose proof bounded_ok as H. rewrite forallb_forall in H. apply (H (c0, b) Hin).
+Qed.
+
+(** each recorded shape is a genuine violation: a schedule of exactly that shape whose final
+    observation no serial execution reaches *)
+Theorem known_genuine :
+  (valid_sched Fresh 2 None c_send_nochange_cancel w_K1
+   /\ known_K1 (trace Fresh w_K1 c_send_nochange_cancel) = true
+   /\ forall s', valid_sched Fresh 0 None c_send_nochange_cancel s' -> (length s' <= 200)%nat ->
+        obs_eqb (obs (run Fresh w_K1 c_send_nochange_cancel))
+                (obs (run Fresh s' c_send_nochange_cancel)) = false)
+  /\ (valid_sched Fresh 2 None c_send_nochange_cancel w_K2
+      /\ known_K2 (trace Fresh w_K2 c_send_nochange_cancel) = true
+      /\ forall s', valid_sched Fresh 0 None c_send_nochange_cancel s' -> (length s' <= 200)%nat ->
+           obs_eqb (obs (run Fresh w_K2 c_send_nochange_cancel))
+                   (obs (run Fresh s' c_send_nochange_cancel)) = false)
+  /\ (valid_sched Fresh 1 None c_restore_two_refresh w_K3
+      /\ known_K3 (trace Fresh w_K3 c_restore_two_refresh) = true
+      /\ forall s', valid_sched Fresh 0 None c_restore_two_refresh s' -> (length s' <= 200)%nat ->
+           obs_eqb (obs (run Fresh w_K3 c_restore_two_refresh))
+                   (obs (run Fresh s' c_restore_two_refresh)) = false).
+Proof.
+  repeat split;
+    try (apply is_final_valid; vm_compute; reflexivity);
+    try (vm_compute; reflexivity);
+    apply not_serializable_spec; vm_compute; reflexivity.
 Qed.
